@@ -33,7 +33,7 @@ var c28MustReviewed = map[string]string{
 }
 
 func checkC28(r *Run) {
-	r.Explain = "C28: (R1) nil contract over the whole module: every function that can return (nil pointer, nil error) — found by scanning returns, propagated through tail calls and interfaces (CHA) — is enumerated, and every dereference of such a result must be dominated by a nil test, be impossible because nil is returned only for a nil argument and the site passes an address, or be in the reviewed table; (R2) no explicit panic / log.Panic / Fatal statement in the HTTP handler layer (package api); panic statements reachable deeper (VTA) are counted and reported, not decided; (R3) every slice/index expression in package api is in bounds (difference-bound reasoning) or in the reviewed table; (R4) every call from package api into a helper that itself contains an explicit panic (Must-style) is a reviewed (caller, callee) pair whose panic cannot be driven by a request; (R6) every mutex Lock/RLock in a function reachable (VTA) from a handler is released on every path to an exit of that function (deferred or explicit unlock on the same receiver); (R5) package api has no unchecked type assertion and no integer division by a value not shown non-zero."
+	r.Explain = "C28: (R1) nil contract over the whole module: every function that can return (nil pointer, nil error) — found by scanning returns, propagated through tail calls and interfaces (CHA) — is enumerated, and every dereference of such a result must be dominated by a nil test, be impossible because nil is returned only for a nil argument and the site passes an address, or be in the reviewed table; (R2) no explicit panic / log.Panic / Fatal statement in the HTTP handler layer (package api); panic statements reachable deeper (VTA) are counted and reported, not decided; (R3) every slice/index expression in package api is in bounds (difference-bound reasoning) or in the reviewed table; (R4) every call from package api into a helper that itself contains an explicit panic (Must-style) is a reviewed (caller, callee) pair whose panic cannot be driven by a request; (R6) every mutex Lock/RLock in a function reachable (VTA) from a handler is released on every path to an exit of that function (deferred or explicit unlock on the same receiver); (R7) the sign endpoint verifies the unsigned transaction (one signature slot per input) before wallet.SignTransaction indexes the slots; (R5) package api has no unchecked type assertion and no integer division by a value not shown non-zero."
 	r.NotDec = "hangs other than leaked mutexes (channel waits, slow operations), dropped connections not caused by panics; the 140-odd invariant panics below the handler layer (crypto length preconditions, visor invariants) are reported in evidence, not discharged; run-time panics from nil-map writes; type assertions and divisions below the handler layer"
 	sites, nCalls, prods := r.P.NilContractSites()
 	r.Units["(nil,nil) producers"] = len(prods)
@@ -216,6 +216,21 @@ func checkC28(r *Run) {
 	}
 	r.Units["lock acquisitions in handler-reachable functions"] = nLocks
 	r.Check("C28-R6", "every lock acquired on a request path is released on all exits of the acquiring function", "", nLocks >= 30, fmt.Sprintf("%d acquisitions checked", nLocks))
+	// R7: preconditions of deep helpers that index without re-checking: wallet.SignTransaction indexes
+	// txn.Sigs by input position, so the sign endpoint must have verified the unsigned transaction's shape
+	// (len(Sigs) == len(In), via the unsigned hard/soft verification) before handing it over
+	for _, f := range r.P.ModFns {
+		if !strings.HasPrefix(FnName(f), "visor.Visor.WalletSignTransaction") {
+			continue
+		}
+		if len(r.CallSites(f, "wallet.SignTransaction")) == 0 {
+			continue
+		}
+		r.RequireAtCallFn("C28-R7", f, "wallet.SignTransaction", 1,
+			req("the transaction handed to the signer passed the unsigned well-formedness verification first", "ok(iface:visor.Blockchainer.VerifySingleTxnSoftHardConstraints(*, params.UserVerifyTxn, 2))"),
+			req("user constraints verified", "ok(transaction.VerifySingleTxnUserConstraints(*))"))
+	}
+	r.RequireOnSuccess("C28-R7", "coin.Transaction.verify", req("one signature slot per input (what SignTransaction relies on)", "len($0.Sigs) == len($0.In)"))
 	r.Units["unchecked type assertions in package api"] = nTA
 	r.Units["non-constant integer divisions in package api"] = nDiv
 	r.Pass("C28-R5", "package api scanned for unchecked type assertions and divisions", "", fmt.Sprintf("%d assertions, %d divisions", nTA, nDiv))
